@@ -312,6 +312,20 @@ macro_rules! by_n {
     };
 }
 
+macro_rules! by_n_args {
+    ($n:expr, $f:ident, $($a:expr),*) => {
+        match $n {
+            0 => $f::<0>($($a),*),
+            1 => $f::<1>($($a),*),
+            2 => $f::<2>($($a),*),
+            3 => $f::<3>($($a),*),
+            4 => $f::<4>($($a),*),
+            5 => $f::<5>($($a),*),
+            _ => $f::<6>($($a),*),
+        }
+    };
+}
+
 macro_rules! by_big_n {
     ($n:expr, $f:ident, $($a:expr),*) => {
         match $n {
@@ -424,6 +438,80 @@ fn stress(cfg: &Cfg, out: &mut Out) {
     }
 }
 
+
+/// `copy()` of an ArrayConsumer / ArrayBuilder over a Copy element type: the copy must have the
+/// original's state (same elements, same future) and leave the original untouched
+fn copy_case<const N: usize>(kind: u8, a: usize, b: usize) -> String {
+    use konst::array::{ArrayBuilder, ArrayConsumer};
+    let show = |l: &[u32]| show_list(l.iter(), |x| x.to_string());
+    let r = catch_unwind(AssertUnwindSafe(|| {
+        if kind == 0 {
+            let mut c = ArrayConsumer::new(std::array::from_fn::<u32, N, _>(|i| i as u32 + 1));
+            for _ in 0..a {
+                let _ = c.next();
+            }
+            for _ in 0..b {
+                let _ = c.next_back();
+            }
+            let orig = show(c.as_slice());
+            let mut cp = c.copy();
+            let copy = show(cp.as_slice());
+            let mut drained = Vec::new();
+            while let Some(x) = cp.next() {
+                drained.push(std::mem::ManuallyDrop::into_inner(x));
+                if drained.len() > N + 2 {
+                    break;
+                }
+            }
+            fields(&[("orig", orig), ("copy", copy), ("drain", show(&drained)), ("after", show(c.as_slice()))])
+        } else {
+            let mut bd = ArrayBuilder::<u32, N>::new();
+            for i in 0..a {
+                bd.push(i as u32 + 1);
+            }
+            let vw = |x: &ArrayBuilder<u32, N>| format!("{}#{}{}", show(x.as_slice()), x.len(), show_bool(x.is_full()));
+            let orig = vw(&bd);
+            let cp = bd.copy();
+            let copy = vw(&cp);
+            let build = match catch_unwind(AssertUnwindSafe(move || cp.build())) {
+                Ok(arr) => format!("A{}", show(&arr)),
+                Err(_) => "PANIC".to_string(),
+            };
+            fields(&[("orig", orig), ("copy", copy), ("build", build), ("after", vw(&bd))])
+        }
+    }));
+    r.unwrap_or_else(|_| "PANIC".into())
+}
+
+fn copies(cfg: &Cfg, out: &mut Out) {
+    let maxn = if cfg.thorough { 5 } else { 4 };
+    for n in 0..=maxn {
+        for a in 0..=n + 1 {
+            for b in 0..=n + 1 {
+                let i = by_n_args!(n, copy_case, 0u8, a, b);
+                let tag = if a + b >= n { "exhausted" } else if a > 0 && b > 0 { "both-ends" } else if a + b > 0 { "one-end" } else { "fresh" };
+                out.line("c11.copy", &format!("0 {} {} {}", n, a, b), &i, "-", tag);
+            }
+        }
+        for a in 0..=n {
+            let i = by_n_args!(n, copy_case, 1u8, a, 0usize);
+            out.line("c11.copy", &format!("1 {} {} 0", n, a), &i, "-", if a == n { "full" } else { "partial" });
+        }
+    }
+    for n in [31usize, 32, 33, 64, 65] {
+        for (a, b) in [(0usize, 0usize), (1, 0), (0, 1), (3, 30), (31, 1), (n / 2, n / 2), (n, 0), (0, n)] {
+            if a + b <= n + 1 {
+                let i = by_big_n!(n, copy_case, 0u8, a, b);
+                out.line("c11.copy", &format!("0 {} {} {}", n, a, b), &i, "-", "big");
+            }
+        }
+        for a in [0usize, 1, 31, n - 1, n] {
+            let i = by_big_n!(n, copy_case, 1u8, a, 0usize);
+            out.line("c11.copy", &format!("1 {} {} 0", n, a), &i, "-", "big");
+        }
+    }
+}
+
 pub fn run(cfg: &Cfg, out: &mut Out) {
     let maxn = if cfg.thorough { 5 } else { 4 };
     let extra = if cfg.thorough { 3 } else { 2 };
@@ -455,6 +543,7 @@ pub fn run(cfg: &Cfg, out: &mut Out) {
     stress(cfg, out);
     // ArrayBuilder histories: push / build / clone / drop with len, is_full, as_slice after
     // every step, incl. over- and under-filling
+    copies(cfg, out);
     histories(cfg, out, "c11.builder", &[1]);
     crate::c15::stress(cfg, out, "c11.builder", &[1]);
 }
